@@ -7,7 +7,7 @@ import select
 import subprocess
 
 import vlib
-from gen import discs
+from gen import discs, flux
 from props import common
 
 LEAN_MODULE = 'Beeb.Props.C18'
@@ -90,6 +90,34 @@ def run(ctx):
     for p in sorted(glob.glob(os.path.join(vlib.REPO, 'dfs', 'testdata', '*'))):
         if p.endswith(('.hfe.gz', '.mfm.gz', '.dsd', '.sdd.gz')):
             images.append((os.path.basename(p), open(p, 'rb').read(), 'testdata'))
+    # flux images: verbose mode dumps headers, opcodes and every sector; one FM image carries a deleted-data record
+    # (dropped by the decoder, with a message), one is damaged
+    for k in range(2 if ctx.tier == 'quick' else 12):
+        mfm = (k % 2 == 1)
+        spt = 18 if mfm else 10
+        d = discs.gen_disc(r, variant='dfs', geom=(40, spt), max_files=4)
+        for c_ in d.cats:
+            if c_.files:
+                c_.files[-1].name, c_.files[-1].dir = b'A', 0x24
+        img = d.encode(discs.filler(r))
+        trs = []
+        for t in range(40):
+            secs = {rec: img[(t * spt + rec) * 256:(t * spt + rec + 1) * 256] for rec in range(spt)}
+            lay = flux.TrackLayout(mfm=mfm)
+            if not mfm and t == 1 + k % 3:
+                secs[spt] = r.bytes(256)
+                lay.deleted = {spt}
+            trs.append([flux.mfm_track(t, 0, secs, lay) if mfm else flux.fm_track(t, 0, secs, lay)])
+        kind_ = r.choice(['hfe1', 'hfe3'] if not mfm else ['hfe1', 'hfe3', 'hxc'])
+        if kind_ == 'hxc':
+            images.append(('f%d.mfm' % k, flux.hxcmfm_image(trs, 1), 'flux'))
+        else:
+            images.append(('f%d.hfe' % k, flux.hfe_image(trs, 1, not mfm, v3=(kind_ == 'hfe3'), opcode_rng=r.fork(), opcode_density=40), 'flux'))
+        if k % 2 == 0:
+            b = bytearray(images[-1][1])
+            for _ in range(r.range(1, 4)):
+                b[r.range(1100, len(b) - 1)] ^= 1 << r.below(8)
+            images.append(('g%d.hfe' % k, bytes(b), 'flux-damaged'))
     cases = []
     variants = [[], ['--verbose'], ['--show-config'], ['--verbose', '--show-config'], ['@after:--verbose'], ['--ui', 'acorn'], ['--ui', 'watford'], ['--ui', 'opus']]
     for (name, img, kind) in images:
